@@ -179,10 +179,80 @@ static void gen_filespec(hctx* h) {
     }
 }
 
+static int replay_none_fs(hctx* h, const h_line* l) { (void)h; (void)l; return 0; }
+/* The same history under ONE allocation failure inside a row-group flush or the close: the k-th allocation request made by
+ * carquet_writer_new_row_group / carquet_writer_close calls fails once (write_batch calls run without faults: what a failed
+ * write_batch leaves behind is C19's business, and retrying it would change the table).  A failed new_row_group is called
+ * again, as a caller would; whatever happens, if every call in the end - and close - said OK, the file must be the valid file of
+ * the history (`wrspec` line; st = the final status of each call). */
+extern void h_alloc_arm(long fail_at);
+extern long h_alloc_disarm(void);
+extern int h_alloc_counting;
+extern long h_alloc_fired;
+static long spec_case_allocfault(hctx* h, fcase* fc, long k) {
+    char path[128]; snprintf(path, sizeof path, "/tmp/verif_fs_%d_f.parquet", (int)getpid());
+    fprintf(h->out, "wrspec");
+    { FILE* save = h->out; char* mem = NULL; size_t msz = 0; FILE* ms = open_memstream(&mem, &msz);
+      h->out = ms; print_case(h, fc); fclose(ms); h->out = save; fputs(mem + 2, h->out); free(mem); }
+    fprintf(h->out, " afault=%ld", k);
+    h_call(h);
+    carquet_error_t err; memset(&err, 0, sizeof err);
+    carquet_schema_t* sc = carquet_schema_create(&err);
+    for (int i = 0; sc && i < fc->ncols; i++) (void)!add_case_column(sc, &fc->cols[i]);
+    carquet_writer_options_t wo; carquet_writer_options_init(&wo);
+    wo.compression = (carquet_compression_t)fc->codec; wo.page_size = fc->page;
+    carquet_writer_t* w = sc ? carquet_writer_create(path, sc, &wo, &err) : NULL;
+    if (!w) { fprintf(h->out, " | err=create\n"); h->n_lines++; if (sc) carquet_schema_free(sc); return 0; }
+    int st[MAXSTEP + 2], nst = 0; long fired0 = h_alloc_fired;
+    h_alloc_arm(k); h_alloc_counting = 0;
+    for (int i = 0; i < fc->nsteps; i++) {
+        const fstep* s = &fc->steps[i];
+        if (s->kind == 1) {
+            h_alloc_counting = 1; int r = (int)carquet_writer_new_row_group(w); h_alloc_counting = 0;
+            if (r != 0) { h_alloc_counting = 1; r = (int)carquet_writer_new_row_group(w); h_alloc_counting = 0; }   /* the caller tries again */
+            st[nst++] = r; continue;
+        }
+        void* v = batch_values(&fc->cols[s->col], s);
+        int16_t* d = NULL;
+        if (s->has_defs) { d = (int16_t*)h_alloc((size_t)(s->nrows ? s->nrows : 1) * 2); for (int r = 0; r < s->nrows; r++) d[r] = s->defs[r]; }
+        int16_t* rl = batch_reps(s);
+        st[nst++] = (int)carquet_writer_write_batch(w, s->col, v, s->nrows, d, rl);
+        free(v); free(d); free(rl);
+    }
+    h_alloc_counting = 1; st[nst++] = (int)carquet_writer_close(w); h_alloc_counting = 0;
+    long seen = h_alloc_disarm(); long fired = h_alloc_fired - fired0;
+    carquet_schema_free(sc);
+    size_t fn; uint8_t* fb = fs_slurp(path, &fn);
+    fprintf(h->out, " | st=");
+    for (int i = 0; i < nst; i++) fprintf(h->out, "%s%d", i ? "," : "", st[i]);
+    fprintf(h->out, " file="); h_hex(h->out, fb, fn);
+    fs_print_oracle(h->out, fb, fn);
+    fprintf(h->out, " fired=%ld p_same_twice=1\n", fired);
+    h->n_lines++;
+    free(fb); unlink(path);
+    return seen;
+}
+
+static void gen_c05alloc(hctx* h) {
+    long cases = h->thorough ? 30 : 5;
+    for (long i = 0; i < cases; i++) {
+        fcase fc;
+        for (;;) { gen_case(h, &fc, 1); int has_rg = 0; for (int q = 0; q < fc.nsteps; q++) if (fc.steps[q].kind == 1) has_rg = 1; if (has_rg && !is_ragged(&fc)) break; free_case(&fc); }
+        if (i % 2 == 0) fc.page = 64 + (long)h_below(h, 200);      /* several pages per chunk: the chunk buffer grows during the flush */
+        long K = spec_case_allocfault(h, &fc, 0);                  /* count the requests of the fault-free run */
+        long stepk = h->thorough ? 1 : 1 + K / 25;
+        for (long k = 1; k <= K; k += stepk) (void)spec_case_allocfault(h, &fc, k);
+        free_case(&fc);
+    }
+}
+const h_component comp_c05alloc = { "c05alloc", gen_c05alloc, replay_none_fs };
+
 static int replay_filespec(hctx* h, const h_line* l) {
     if (strcmp(l->op, "wrspec") != 0) return 0;
     fcase fc; if (parse_case(l, &fc)) { fprintf(stderr, "bad wrspec line\n"); return 1; }
-    run_spec_case(h, &fc); free_case(&fc); return 1;
+    if (h_in(l, "afault")) (void)spec_case_allocfault(h, &fc, (long)h_ll(h_in(l, "afault")));
+    else run_spec_case(h, &fc);
+    free_case(&fc); return 1;
 }
 
 const h_component comp_filespec = { "filespec", gen_filespec, replay_filespec };
